@@ -550,6 +550,7 @@ func ruleSkipRange(p *Prog, r *RuleResult) {
 	for _, st := range a.skipStores {
 		skipBlocks[st.Block()] = true
 	}
+	skipEdges := map[edge]bool{} // edges of the range tests (or of a range predicate helper) that lead to a skip
 	isID := func(v ssa.Value) bool {
 		for {
 			if cv, ok := v.(*ssa.Convert); ok {
@@ -677,8 +678,10 @@ func ruleSkipRange(p *Prog, r *RuleResult) {
 		switch {
 		case skipBlocks[tSucc] && !skipBlocks[fSucc]:
 			rel = op
+			skipEdges[edge{b, succFor(pos, true)}] = true
 		case skipBlocks[fSucc] && !skipBlocks[tSucc]:
 			rel = negateOp(op)
+			skipEdges[edge{b, succFor(pos, false)}] = true
 		default:
 			r.fail(fmt.Sprintf("%s#range.%s", fname, key), p.IPos(ifi), fmt.Sprintf("the comparison of the block id with %q does not decide whether the block is skipped", key))
 			found[key] = true
@@ -713,6 +716,30 @@ func ruleSkipRange(p *Prog, r *RuleResult) {
 				continue
 			}
 			r.fail(fmt.Sprintf("%s#range.%s", fname, key), p.Pos(f.Pos()), fmt.Sprintf("decode never compares the block id with ctx[%q]", key))
+		}
+	}
+	// converse: a block is marked skipped only because a range test said so. Every way to a store of the skipped flag
+	// crosses a skip edge of a range comparison (or the true edge of a same-package predicate over the block id).
+	for _, b := range f.Blocks {
+		if ifi := blockIf(b); ifi != nil {
+			atom, pos := condAtom(ifi.Cond)
+			if c, ok := atom.(*ssa.Call); ok {
+				if h := c.Call.StaticCallee(); h != nil && h.Blocks != nil && FnPkg(h) == FnPkg(f) && skipBlocks[b.Succs[succFor(pos, true)]] {
+					if _, _, okb := boolReturns(h); okb {
+						skipEdges[edge{b, succFor(pos, true)}] = true
+					}
+				}
+			}
+		}
+	}
+	if len(skipEdges) > 0 {
+		live := reach(f.Blocks[0], skipEdges, nil)
+		for _, st := range a.skipStores {
+			if live[st.Block()] {
+				r.fail(fmt.Sprintf("%s#skip-without-range-test", fname), p.IPos(st), "a block can be marked as skipped on a path that passes no comparison of its id with the from/to bounds: the reader drops the block silently (nothing is delivered for it, its checksum is never verified) – a damaged or forged field makes a whole block disappear from the output without an error")
+			} else {
+				r.ok(fname+": the skipped flag is set only behind a range test", p.IPos(st))
+			}
 		}
 	}
 	r.floor(2, len(found), "range comparisons (from, to)")
